@@ -1,0 +1,23 @@
+//go:build verif
+
+package stream
+
+import "sync/atomic"
+
+var verifHook atomic.Pointer[func(string)]
+
+// SetVerifHook installs a callback invoked at named scheduling points
+// (verification builds only; pass nil to remove it).
+func SetVerifHook(f func(string)) {
+	if f == nil {
+		verifHook.Store(nil)
+		return
+	}
+	verifHook.Store(&f)
+}
+
+func verifPoint(name string) {
+	if f := verifHook.Load(); f != nil {
+		(*f)(name)
+	}
+}
